@@ -98,3 +98,14 @@ for _tag, _ni, _vario, _tiers in (('vmap.1', 1, 0, ('quick', 'thorough')), ('vma
       stubs=['Model::getCovAnisoList -> nullptr (no anamorphosis properties: the dynamic_cast of st_modify_optvar_for_anam gives nullptr)',
              'EConsElem::fromValue / fromKey, getDefaultSpaceType, static enum items written by hand: as C17.b', 'messerr / message: empty']
             + (['Vario::getCodir -> third component 0 or 1 per direction (symbolic); ASpaceObject::getNDim -> the symbolic space dimension (behind Model::getDimensionNumber)'] if _vario else []))
+
+# ---- C17.h compression of the parameter arrays after a structure is suppressed (added after seeded change r5_compress_lower)
+for _n, _tiers in ((3, ('quick', 'thorough')), (5, ('thorough',))):
+    K('C17.h.%d' % _n, property='C17', engine='symex', harness='C17/compress.cpp', entry='k_compress', tus=['src/Basic/Utilities.cpp'], defines={'all': {'VF_N': _n}}, tiers=_tiers,
+      bounds={'quick': '%d parameters, each alive or suppressed (param = TEST), arbitrary identifiers in [0, 2^20], arbitrary real values, each bound present (any real) or absent (TEST)' % _n},
+      timeout_ms={'quick': 100000, 'thorough': 600000}, validate={'quick': 50, 'thorough': 100}, validate_doubles='int',
+      what='st_compress_parid (model_auto.cpp, included as a translation unit): the k-th surviving parameter keeps its own identifier, value, lower bound and upper bound; '
+           'the count returned is the number of survivors',
+      out='st_model_auto_strmod_reduce around it (which structures are suppressed: st_structure_reduce, model surgery); the optimiser',
+      assumptions=['a live parameter value is a defined value (below TEST_COMP = 1e30), finite'],
+      stubs=[])
